@@ -58,8 +58,12 @@ pub open spec fn fan_out(before: Seq<(int, Seq<char>)>, after: Seq<(int, Seq<cha
         && (forall|n: String| order.contains(n) <==> (set.contains(n) && n != me))
         && after == before + order.map_values(|n: String| (s.users@[n].sender.id(), line))
 }
-pub open spec fn opt_fan_out(on: bool, before: Seq<(int, Seq<char>)>, after: Seq<(int, Seq<char>)>, s: VolatileState, set: Option<HashSet<String>>, me: String, line: Seq<char>) -> bool {
-    if on && set is Some { fan_out(before, after, s, set->0@, me, line) } else { after == before }
+// a member that holds at least one of the statuses the target names
+pub open spec fn has_named_status(tt: TargetTypeSet, m: ChannelUserModes) -> bool {
+    (tt.founder && m.founder) || (tt.protected && m.protected) || (tt.oper && m.operator) || (tt.halfop && m.half_oper) || (tt.voice && m.voice)
+}
+pub open spec fn status_audience(tt: TargetTypeSet, ch: Channel) -> Set<String> {
+    ch.users@.dom().filter(|n: String| has_named_status(tt, ch.users@[n]))
 }
 // delivery for a channel target whose message is accepted
 pub open spec fn chan_delivery(tt: TargetTypeSet, before: Seq<(int, Seq<char>)>, after: Seq<(int, Seq<char>)>, s: VolatileState, ch: Channel, me: String, line: Seq<char>) -> bool {
@@ -67,17 +71,10 @@ pub open spec fn chan_delivery(tt: TargetTypeSet, before: Seq<(int, Seq<char>)>,
         // plain channel target: every other member, once
         fan_out(before, after, s, ch.users@.dom(), me, line)
     } else {
-        // status prefixes: one pass per named status list, in this order
-        exists|l1: Seq<(int, Seq<char>)>, l2: Seq<(int, Seq<char>)>, l3: Seq<(int, Seq<char>)>, l4: Seq<(int, Seq<char>)>|
-            #![trigger opt_fan_out(tt.founder, before, l1, s, ch.modes.founders, me, line), opt_fan_out(tt.protected, l1, l2, s, ch.modes.protecteds, me, line), opt_fan_out(tt.oper, l2, l3, s, ch.modes.operators, me, line), opt_fan_out(tt.halfop, l3, l4, s, ch.modes.half_operators, me, line)]
-            opt_fan_out(tt.founder, before, l1, s, ch.modes.founders, me, line)
-            && opt_fan_out(tt.protected, l1, l2, s, ch.modes.protecteds, me, line)
-            && opt_fan_out(tt.oper, l2, l3, s, ch.modes.operators, me, line)
-            && opt_fan_out(tt.halfop, l3, l4, s, ch.modes.half_operators, me, line)
-            && opt_fan_out(tt.voice, l4, after, s, ch.modes.voices, me, line)
+        // status prefixes: every other member holding at least one of the named statuses, ONCE (also when it holds several of them)
+        fan_out(before, after, s, status_audience(tt, ch), me, line)
     }
 }
-
 // --- the per-target postcondition as two relations, so that the enclosing handler can chain them over the distinct targets ---
 // outbox side: accepted => exactly the addressed audience, once each, never the sender (C01); refused / unknown => nobody (C10)
 // the relayed line: the sender's nick!user@host, the verb, the target and the text exactly as sent
@@ -196,300 +193,91 @@ impl MainState {
                         let ghost log0 = outbox.log;
                         proof { assert(chan_wf(ch)); assert(state.channels@[cname] == ch); }
                         let ghost tt = target_type;
-                        let ghost mut st1 = outbox.log;
-                        let ghost mut st2 = outbox.log;
-                        let ghost mut st3 = outbox.log;
-                        let ghost mut st4 = outbox.log;
-//@before ~if !\(target_type & ChannelProtected\)\.is_empty\(\)
-                                proof { st1 = outbox.log; assert(opt_fan_out(tt.founder, log0, st1, *state, ch.modes.founders, me, line)); }
-//@before ~if !\(target_type & ChannelOper\)\.is_empty\(\)
-                                proof { st2 = outbox.log; assert(opt_fan_out(tt.protected, st1, st2, *state, ch.modes.protecteds, me, line)); }
-//@before ~if !\(target_type & ChannelHalfOper\)\.is_empty\(\)
-                                proof { st3 = outbox.log; assert(opt_fan_out(tt.oper, st2, st3, *state, ch.modes.operators, me, line)); }
-//@before ~if !\(target_type & ChannelVoice\)\.is_empty\(\)
-                                proof { st4 = outbox.log; assert(opt_fan_out(tt.halfop, st3, st4, *state, ch.modes.half_operators, me, line)); }
 //@before ~something_done = true;
-                            proof {
-                                if tt.founder || tt.protected || tt.oper || tt.halfop || tt.voice {
-                                    assert(opt_fan_out(tt.voice, st4, outbox.log, *state, ch.modes.voices, me, line));
+                            proof { assert(chan_delivery(tt, log0, outbox.log, *state, ch, me, line)); }
+//@before ~for \(u, chum\) in chanobj\.users\.iter\(\)
+                                let ghost log_s = outbox.log;
+                                let ghost mut ord_s: Seq<String> = Seq::empty();
+                                let ghost mut done_s: Set<String> = Set::empty();
+                                let ghost set_s = status_audience(tt, ch);
+                                proof {
+                                    // an empty roster: nobody to tell
+                                    if ch.users@.dom().len() == 0 {
+                                        let e = Seq::<String>::empty();
+                                        assert(ch.users@.dom() =~= Set::<String>::empty());
+                                        assert(outbox.log =~= outbox.log + e.map_values(|n: String| (state.users@[n].sender.id(), line)));
+                                        assert(e.no_duplicates());
+                                        assert forall|n: String| !set_s.contains(n) by { if set_s.contains(n) { assert(ch.users@.dom().contains(n)); } }
+                                        assert forall|n: String| e.contains(n) <==> (set_s.contains(n) && n != me) by { }
+                                        assert(outbox.log == log_s);
+                                        assert(fan_out(log_s, outbox.log, *state, set_s, me, line));
+                                    }
                                 }
-                                assert(chan_delivery(tt, log0, outbox.log, *state, ch, me, line));
-                            }
-//@before ~for u in founders\.iter\(\)
-                                        let ghost log_f = outbox.log;
-                                        let ghost mut ord_f: Seq<String> = Seq::empty();
-                                        let ghost mut done_f: Set<String> = Set::empty();
-                                        let ghost set_f = founders@;
-//@loop ~for u in founders\.iter\(\) iter=it_f
-                                            invariant
-                                                it_f.seq().no_duplicates(), it_f.seq().len() == set_f.len(),
-                                                forall|q: String| set_f.contains(q) ==> exists|i: int| 0 <= i < it_f.seq().len() && *#[trigger] it_f.seq()[i] == q,
-                                                forall|i: int| 0 <= i < it_f.seq().len() ==> set_f.contains(*#[trigger] it_f.seq()[i]),
-                                                forall|c: String| done_f.contains(c) <==> (exists|j: int| 0 <= j < it_f.index@ && *#[trigger] it_f.seq()[j] == c),
-                                                ord_f.no_duplicates(),
-                                                forall|i: int| 0 <= i < ord_f.len() ==> done_f.contains(#[trigger] ord_f[i]) && ord_f[i] != me,
-                                                forall|c: String| done_f.contains(c) && c != me ==> #[trigger] ord_f.contains(c),
-                                                outbox.log == log_f + ord_f.map_values(|n: String| (state.users@[n].sender.id(), line)), // @prop C01
-                                                conn_state.stream.log() == slog, conn_same_but_stream(*conn_state, *old(conn_state)),
-                                                state_wf(*state), state.channels@.contains_key(cname), state.channels@[cname] == ch, chan_wf(ch), line == disp::<&String>(conn_state.user_state.source@, &msg_str), slog == old(conn_state).stream.log(), tt == target_type_spec(target@).0, cname == string_of(target_type_spec(target@).1), tt.chan, me == my_nick(*old(conn_state)),
-                                                may_speak(ch, me, old(conn_state).user_state.source@), // @prop C10
-                                                set_f == oset(ch.modes.founders), *user_nick == me,
-//@after ~for u in founders\.iter\(\)
-                                            broadcast use group_hash_axioms, bridge, string_eq, lemma_cover_is_exact;
-                                            proof {
-                                                assert(set_f == oset(ch.modes.founders));
-                                                assert(set_f.contains(*u));
-                                                assert(ch.users@.contains_key(*u));
-                                                assert(member(*state, *u, cname));
-                                                assert(!done_f.contains(*u));
+//@loop ~for \(u, chum\) in chanobj\.users\.iter\(\) iter=it_s
+                                    invariant
+                                        it_s.seq().no_duplicates(), it_s.seq().len() == ch.users@.dom().len(),
+                                        forall|i: int| 0 <= i < it_s.seq().len() ==> ch.users@.contains_key(*(#[trigger] it_s.seq()[i]).0) && ch.users@[*it_s.seq()[i].0] == *it_s.seq()[i].1,
+                                        forall|q: String| ch.users@.contains_key(q) ==> exists|i: int| 0 <= i < it_s.seq().len() && *(#[trigger] it_s.seq()[i]).0 == q,
+                                        forall|c: String| done_s.contains(c) <==> (exists|j: int| 0 <= j < it_s.index@ && *(#[trigger] it_s.seq()[j]).0 == c),
+                                        ord_s.no_duplicates(),
+                                        forall|i: int| 0 <= i < ord_s.len() ==> done_s.contains(#[trigger] ord_s[i]) && ord_s[i] != me && set_s.contains(ord_s[i]),
+                                        forall|c: String| done_s.contains(c) && c != me && set_s.contains(c) ==> #[trigger] ord_s.contains(c),
+                                        outbox.log == log_s + ord_s.map_values(|n: String| (state.users@[n].sender.id(), line)), // @prop C01
+                                        it_s.index@ == it_s.seq().len() ==> fan_out(log_s, outbox.log, *state, set_s, me, line), // @prop C01
+                                        conn_state.stream.log() == slog, conn_same_but_stream(*conn_state, *old(conn_state)),
+                                        state_wf(*state), state.channels@.contains_key(cname), state.channels@[cname] == ch, chan_wf(ch), line == disp::<&String>(conn_state.user_state.source@, &msg_str), slog == old(conn_state).stream.log(), tt == target_type_spec(target@).0, cname == string_of(target_type_spec(target@).1), tt.chan, me == my_nick(*old(conn_state)),
+                                        may_speak(ch, me, old(conn_state).user_state.source@), // @prop C10
+                                        set_s == status_audience(tt, ch), *user_nick == me, tt == target_type, *chanobj == ch,
+//@after ~for \(u, chum\) in chanobj\.users\.iter\(\)
+                                    broadcast use group_hash_axioms, bridge, string_eq;
+                                    let ghost sent_before = outbox.log;
+                                    proof {
+                                        assert(ch.users@.contains_key(*u) && ch.users@[*u] == *chum);
+                                        assert(member(*state, *u, cname));
+                                        assert(!done_s.contains(*u)) by {
+                                            if done_s.contains(*u) {
+                                                let j = choose|j: int| 0 <= j < it_s.index@ && *(#[trigger] it_s.seq()[j]).0 == *u;
+                                                assert(*it_s.seq()[j].1 == ch.users@[*u]);
+                                                assert(it_s.seq()[j] == it_s.seq()[it_s.index@ as int]);
                                             }
-//@endloop ~for u in founders\.iter\(\)
-                                            proof {
-                                                let f = |n: String| (state.users@[n].sender.id(), line);
-                                                let old_ord = ord_f;
-                                                assert(string_of(u@) == *u && string_of(me@) == me);
-                                                if u@ != me@ {
-                                                    assert(!old_ord.contains(*u)) by {
-                                                        if old_ord.contains(*u) { let i = choose|i: int| 0 <= i < old_ord.len() && old_ord[i] == *u; assert(done_f.contains(old_ord[i])); }
-                                                    }
-                                                    assert(old_ord.push(*u).map_values(f) =~= old_ord.map_values(f).push(f(*u)));
-                                                    ord_f = old_ord.push(*u);
-                                                    assert(ord_f[old_ord.len() as int] == *u);
-                                                }
-                                                done_f = done_f.insert(*u);
-                                                assert forall|c: String| done_f.contains(c) && c != me implies #[trigger] ord_f.contains(c) by {
-                                                    if c == *u { assert(ord_f[old_ord.len() as int] == c); }
-                                                    else { assert(old_ord.contains(c)); let i = choose|i: int| 0 <= i < old_ord.len() && old_ord[i] == c; assert(ord_f[i] == c); }
-                                                }
-                                            }
-//@afterloop ~for u in founders\.iter\(\)
-                                        proof {
-                                            assert forall|n: String| ord_f.contains(n) <==> (set_f.contains(n) && n != me) by {
-                                                if ord_f.contains(n) { let i = choose|i: int| 0 <= i < ord_f.len() && ord_f[i] == n; assert(done_f.contains(ord_f[i])); }
-                                                if set_f.contains(n) && n != me { assert(done_f.contains(n)); }
-                                            }
-                                            assert(fan_out(log_f, outbox.log, *state, set_f, me, line));
                                         }
-//@before ~for u in protecteds\.iter\(\)
-                                        let ghost log_p = outbox.log;
-                                        let ghost mut ord_p: Seq<String> = Seq::empty();
-                                        let ghost mut done_p: Set<String> = Set::empty();
-                                        let ghost set_p = protecteds@;
-//@loop ~for u in protecteds\.iter\(\) iter=it_p
-                                            invariant
-                                                it_p.seq().no_duplicates(), it_p.seq().len() == set_p.len(),
-                                                forall|q: String| set_p.contains(q) ==> exists|i: int| 0 <= i < it_p.seq().len() && *#[trigger] it_p.seq()[i] == q,
-                                                forall|i: int| 0 <= i < it_p.seq().len() ==> set_p.contains(*#[trigger] it_p.seq()[i]),
-                                                forall|c: String| done_p.contains(c) <==> (exists|j: int| 0 <= j < it_p.index@ && *#[trigger] it_p.seq()[j] == c),
-                                                ord_p.no_duplicates(),
-                                                forall|i: int| 0 <= i < ord_p.len() ==> done_p.contains(#[trigger] ord_p[i]) && ord_p[i] != me,
-                                                forall|c: String| done_p.contains(c) && c != me ==> #[trigger] ord_p.contains(c),
-                                                outbox.log == log_p + ord_p.map_values(|n: String| (state.users@[n].sender.id(), line)), // @prop C01
-                                                conn_state.stream.log() == slog, conn_same_but_stream(*conn_state, *old(conn_state)),
-                                                state_wf(*state), state.channels@.contains_key(cname), state.channels@[cname] == ch, chan_wf(ch), line == disp::<&String>(conn_state.user_state.source@, &msg_str), slog == old(conn_state).stream.log(), tt == target_type_spec(target@).0, cname == string_of(target_type_spec(target@).1), tt.chan, me == my_nick(*old(conn_state)),
-                                                may_speak(ch, me, old(conn_state).user_state.source@), // @prop C10
-                                                set_p == oset(ch.modes.protecteds), *user_nick == me,
-//@after ~for u in protecteds\.iter\(\)
-                                            broadcast use group_hash_axioms, bridge, string_eq, lemma_cover_is_exact;
-                                            proof {
-                                                assert(set_p == oset(ch.modes.protecteds));
-                                                assert(set_p.contains(*u));
-                                                assert(ch.users@.contains_key(*u));
-                                                assert(member(*state, *u, cname));
-                                                assert(!done_p.contains(*u));
+                                    }
+//@endloop ~for \(u, chum\) in chanobj\.users\.iter\(\)
+                                    proof {
+                                        let f = |n: String| (state.users@[n].sender.id(), line);
+                                        let old_ord = ord_s;
+                                        assert(string_of(u@) == *u && string_of(me@) == me);
+                                        // a copy was sent exactly to a member other than the sender that holds one of the named statuses
+                                        assert(outbox.log == sent_before || outbox.log == sent_before.push(f(*u))); // @prop C01
+                                        assert((outbox.log != sent_before) <==> (u@ != me@ && set_s.contains(*u))); // @prop C01
+                                        if outbox.log != sent_before {
+                                            assert(!old_ord.contains(*u)) by {
+                                                if old_ord.contains(*u) { let i = choose|i: int| 0 <= i < old_ord.len() && old_ord[i] == *u; assert(done_s.contains(old_ord[i])); }
                                             }
-//@endloop ~for u in protecteds\.iter\(\)
-                                            proof {
-                                                let f = |n: String| (state.users@[n].sender.id(), line);
-                                                let old_ord = ord_p;
-                                                assert(string_of(u@) == *u && string_of(me@) == me);
-                                                if u@ != me@ {
-                                                    assert(!old_ord.contains(*u)) by {
-                                                        if old_ord.contains(*u) { let i = choose|i: int| 0 <= i < old_ord.len() && old_ord[i] == *u; assert(done_p.contains(old_ord[i])); }
-                                                    }
-                                                    assert(old_ord.push(*u).map_values(f) =~= old_ord.map_values(f).push(f(*u)));
-                                                    ord_p = old_ord.push(*u);
-                                                    assert(ord_p[old_ord.len() as int] == *u);
-                                                }
-                                                done_p = done_p.insert(*u);
-                                                assert forall|c: String| done_p.contains(c) && c != me implies #[trigger] ord_p.contains(c) by {
-                                                    if c == *u { assert(ord_p[old_ord.len() as int] == c); }
-                                                    else { assert(old_ord.contains(c)); let i = choose|i: int| 0 <= i < old_ord.len() && old_ord[i] == c; assert(ord_p[i] == c); }
-                                                }
-                                            }
-//@afterloop ~for u in protecteds\.iter\(\)
-                                        proof {
-                                            assert forall|n: String| ord_p.contains(n) <==> (set_p.contains(n) && n != me) by {
-                                                if ord_p.contains(n) { let i = choose|i: int| 0 <= i < ord_p.len() && ord_p[i] == n; assert(done_p.contains(ord_p[i])); }
-                                                if set_p.contains(n) && n != me { assert(done_p.contains(n)); }
-                                            }
-                                            assert(fan_out(log_p, outbox.log, *state, set_p, me, line));
+                                            assert(old_ord.push(*u).map_values(f) =~= old_ord.map_values(f).push(f(*u)));
+                                            ord_s = old_ord.push(*u);
+                                            assert(ord_s[old_ord.len() as int] == *u);
                                         }
-//@before ~for u in operators\.iter\(\)
-                                        let ghost log_o = outbox.log;
-                                        let ghost mut ord_o: Seq<String> = Seq::empty();
-                                        let ghost mut done_o: Set<String> = Set::empty();
-                                        let ghost set_o = operators@;
-//@loop ~for u in operators\.iter\(\) iter=it_o
-                                            invariant
-                                                it_o.seq().no_duplicates(), it_o.seq().len() == set_o.len(),
-                                                forall|q: String| set_o.contains(q) ==> exists|i: int| 0 <= i < it_o.seq().len() && *#[trigger] it_o.seq()[i] == q,
-                                                forall|i: int| 0 <= i < it_o.seq().len() ==> set_o.contains(*#[trigger] it_o.seq()[i]),
-                                                forall|c: String| done_o.contains(c) <==> (exists|j: int| 0 <= j < it_o.index@ && *#[trigger] it_o.seq()[j] == c),
-                                                ord_o.no_duplicates(),
-                                                forall|i: int| 0 <= i < ord_o.len() ==> done_o.contains(#[trigger] ord_o[i]) && ord_o[i] != me,
-                                                forall|c: String| done_o.contains(c) && c != me ==> #[trigger] ord_o.contains(c),
-                                                outbox.log == log_o + ord_o.map_values(|n: String| (state.users@[n].sender.id(), line)), // @prop C01
-                                                conn_state.stream.log() == slog, conn_same_but_stream(*conn_state, *old(conn_state)),
-                                                state_wf(*state), state.channels@.contains_key(cname), state.channels@[cname] == ch, chan_wf(ch), line == disp::<&String>(conn_state.user_state.source@, &msg_str), slog == old(conn_state).stream.log(), tt == target_type_spec(target@).0, cname == string_of(target_type_spec(target@).1), tt.chan, me == my_nick(*old(conn_state)),
-                                                may_speak(ch, me, old(conn_state).user_state.source@), // @prop C10
-                                                set_o == oset(ch.modes.operators), *user_nick == me,
-//@after ~for u in operators\.iter\(\)
-                                            broadcast use group_hash_axioms, bridge, string_eq, lemma_cover_is_exact;
-                                            proof {
-                                                assert(set_o == oset(ch.modes.operators));
-                                                assert(set_o.contains(*u));
-                                                assert(ch.users@.contains_key(*u));
-                                                assert(member(*state, *u, cname));
-                                                assert(!done_o.contains(*u));
-                                            }
-//@endloop ~for u in operators\.iter\(\)
-                                            proof {
-                                                let f = |n: String| (state.users@[n].sender.id(), line);
-                                                let old_ord = ord_o;
-                                                assert(string_of(u@) == *u && string_of(me@) == me);
-                                                if u@ != me@ {
-                                                    assert(!old_ord.contains(*u)) by {
-                                                        if old_ord.contains(*u) { let i = choose|i: int| 0 <= i < old_ord.len() && old_ord[i] == *u; assert(done_o.contains(old_ord[i])); }
-                                                    }
-                                                    assert(old_ord.push(*u).map_values(f) =~= old_ord.map_values(f).push(f(*u)));
-                                                    ord_o = old_ord.push(*u);
-                                                    assert(ord_o[old_ord.len() as int] == *u);
-                                                }
-                                                done_o = done_o.insert(*u);
-                                                assert forall|c: String| done_o.contains(c) && c != me implies #[trigger] ord_o.contains(c) by {
-                                                    if c == *u { assert(ord_o[old_ord.len() as int] == c); }
-                                                    else { assert(old_ord.contains(c)); let i = choose|i: int| 0 <= i < old_ord.len() && old_ord[i] == c; assert(ord_o[i] == c); }
-                                                }
-                                            }
-//@afterloop ~for u in operators\.iter\(\)
-                                        proof {
-                                            assert forall|n: String| ord_o.contains(n) <==> (set_o.contains(n) && n != me) by {
-                                                if ord_o.contains(n) { let i = choose|i: int| 0 <= i < ord_o.len() && ord_o[i] == n; assert(done_o.contains(ord_o[i])); }
-                                                if set_o.contains(n) && n != me { assert(done_o.contains(n)); }
-                                            }
-                                            assert(fan_out(log_o, outbox.log, *state, set_o, me, line));
+                                        done_s = done_s.insert(*u);
+                                        assert forall|c: String| done_s.contains(c) && c != me && set_s.contains(c) implies #[trigger] ord_s.contains(c) by {
+                                            if c == *u { assert(ord_s[old_ord.len() as int] == c); }
+                                            else { assert(old_ord.contains(c)); let i = choose|i: int| 0 <= i < old_ord.len() && old_ord[i] == c; assert(ord_s[i] == c); }
                                         }
-//@before ~for u in half_ops\.iter\(\)
-                                        let ghost log_h = outbox.log;
-                                        let ghost mut ord_h: Seq<String> = Seq::empty();
-                                        let ghost mut done_h: Set<String> = Set::empty();
-                                        let ghost set_h = half_ops@;
-//@loop ~for u in half_ops\.iter\(\) iter=it_h
-                                            invariant
-                                                it_h.seq().no_duplicates(), it_h.seq().len() == set_h.len(),
-                                                forall|q: String| set_h.contains(q) ==> exists|i: int| 0 <= i < it_h.seq().len() && *#[trigger] it_h.seq()[i] == q,
-                                                forall|i: int| 0 <= i < it_h.seq().len() ==> set_h.contains(*#[trigger] it_h.seq()[i]),
-                                                forall|c: String| done_h.contains(c) <==> (exists|j: int| 0 <= j < it_h.index@ && *#[trigger] it_h.seq()[j] == c),
-                                                ord_h.no_duplicates(),
-                                                forall|i: int| 0 <= i < ord_h.len() ==> done_h.contains(#[trigger] ord_h[i]) && ord_h[i] != me,
-                                                forall|c: String| done_h.contains(c) && c != me ==> #[trigger] ord_h.contains(c),
-                                                outbox.log == log_h + ord_h.map_values(|n: String| (state.users@[n].sender.id(), line)), // @prop C01
-                                                conn_state.stream.log() == slog, conn_same_but_stream(*conn_state, *old(conn_state)),
-                                                state_wf(*state), state.channels@.contains_key(cname), state.channels@[cname] == ch, chan_wf(ch), line == disp::<&String>(conn_state.user_state.source@, &msg_str), slog == old(conn_state).stream.log(), tt == target_type_spec(target@).0, cname == string_of(target_type_spec(target@).1), tt.chan, me == my_nick(*old(conn_state)),
-                                                may_speak(ch, me, old(conn_state).user_state.source@), // @prop C10
-                                                set_h == oset(ch.modes.half_operators), *user_nick == me,
-//@after ~for u in half_ops\.iter\(\)
-                                            broadcast use group_hash_axioms, bridge, string_eq, lemma_cover_is_exact;
-                                            proof {
-                                                assert(set_h == oset(ch.modes.half_operators));
-                                                assert(set_h.contains(*u));
-                                                assert(ch.users@.contains_key(*u));
-                                                assert(member(*state, *u, cname));
-                                                assert(!done_h.contains(*u));
-                                            }
-//@endloop ~for u in half_ops\.iter\(\)
-                                            proof {
-                                                let f = |n: String| (state.users@[n].sender.id(), line);
-                                                let old_ord = ord_h;
-                                                assert(string_of(u@) == *u && string_of(me@) == me);
-                                                if u@ != me@ {
-                                                    assert(!old_ord.contains(*u)) by {
-                                                        if old_ord.contains(*u) { let i = choose|i: int| 0 <= i < old_ord.len() && old_ord[i] == *u; assert(done_h.contains(old_ord[i])); }
-                                                    }
-                                                    assert(old_ord.push(*u).map_values(f) =~= old_ord.map_values(f).push(f(*u)));
-                                                    ord_h = old_ord.push(*u);
-                                                    assert(ord_h[old_ord.len() as int] == *u);
-                                                }
-                                                done_h = done_h.insert(*u);
-                                                assert forall|c: String| done_h.contains(c) && c != me implies #[trigger] ord_h.contains(c) by {
-                                                    if c == *u { assert(ord_h[old_ord.len() as int] == c); }
-                                                    else { assert(old_ord.contains(c)); let i = choose|i: int| 0 <= i < old_ord.len() && old_ord[i] == c; assert(ord_h[i] == c); }
+                                    }
+                                    assert(it_s.index@ + 1 == it_s.seq().len() ==> fan_out(log_s, outbox.log, *state, set_s, me, line)) by { // @prop C01
+                                        if it_s.index@ + 1 == it_s.seq().len() {
+                                            assert forall|n: String| ord_s.contains(n) <==> (set_s.contains(n) && n != me) by {
+                                                if ord_s.contains(n) { let i = choose|i: int| 0 <= i < ord_s.len() && ord_s[i] == n; assert(done_s.contains(ord_s[i])); }
+                                                if set_s.contains(n) && n != me {
+                                                    let i = choose|i: int| 0 <= i < it_s.seq().len() && *(#[trigger] it_s.seq()[i]).0 == n;
+                                                    assert(done_s.contains(n));
                                                 }
                                             }
-//@afterloop ~for u in half_ops\.iter\(\)
-                                        proof {
-                                            assert forall|n: String| ord_h.contains(n) <==> (set_h.contains(n) && n != me) by {
-                                                if ord_h.contains(n) { let i = choose|i: int| 0 <= i < ord_h.len() && ord_h[i] == n; assert(done_h.contains(ord_h[i])); }
-                                                if set_h.contains(n) && n != me { assert(done_h.contains(n)); }
-                                            }
-                                            assert(fan_out(log_h, outbox.log, *state, set_h, me, line));
+                                            assert(ord_s.no_duplicates());
+                                            assert(outbox.log == log_s + ord_s.map_values(|n: String| (state.users@[n].sender.id(), line)));
+                                            assert(fan_out(log_s, outbox.log, *state, set_s, me, line));
                                         }
-//@before ~for u in voices\.iter\(\)
-                                        let ghost log_v = outbox.log;
-                                        let ghost mut ord_v: Seq<String> = Seq::empty();
-                                        let ghost mut done_v: Set<String> = Set::empty();
-                                        let ghost set_v = voices@;
-//@loop ~for u in voices\.iter\(\) iter=it_v
-                                            invariant
-                                                it_v.seq().no_duplicates(), it_v.seq().len() == set_v.len(),
-                                                forall|q: String| set_v.contains(q) ==> exists|i: int| 0 <= i < it_v.seq().len() && *#[trigger] it_v.seq()[i] == q,
-                                                forall|i: int| 0 <= i < it_v.seq().len() ==> set_v.contains(*#[trigger] it_v.seq()[i]),
-                                                forall|c: String| done_v.contains(c) <==> (exists|j: int| 0 <= j < it_v.index@ && *#[trigger] it_v.seq()[j] == c),
-                                                ord_v.no_duplicates(),
-                                                forall|i: int| 0 <= i < ord_v.len() ==> done_v.contains(#[trigger] ord_v[i]) && ord_v[i] != me,
-                                                forall|c: String| done_v.contains(c) && c != me ==> #[trigger] ord_v.contains(c),
-                                                outbox.log == log_v + ord_v.map_values(|n: String| (state.users@[n].sender.id(), line)), // @prop C01
-                                                conn_state.stream.log() == slog, conn_same_but_stream(*conn_state, *old(conn_state)),
-                                                state_wf(*state), state.channels@.contains_key(cname), state.channels@[cname] == ch, chan_wf(ch), line == disp::<&String>(conn_state.user_state.source@, &msg_str), slog == old(conn_state).stream.log(), tt == target_type_spec(target@).0, cname == string_of(target_type_spec(target@).1), tt.chan, me == my_nick(*old(conn_state)),
-                                                may_speak(ch, me, old(conn_state).user_state.source@), // @prop C10
-                                                set_v == oset(ch.modes.voices), *user_nick == me,
-//@after ~for u in voices\.iter\(\)
-                                            broadcast use group_hash_axioms, bridge, string_eq, lemma_cover_is_exact;
-                                            proof {
-                                                assert(set_v == oset(ch.modes.voices));
-                                                assert(set_v.contains(*u));
-                                                assert(ch.users@.contains_key(*u));
-                                                assert(member(*state, *u, cname));
-                                                assert(!done_v.contains(*u));
-                                            }
-//@endloop ~for u in voices\.iter\(\)
-                                            proof {
-                                                let f = |n: String| (state.users@[n].sender.id(), line);
-                                                let old_ord = ord_v;
-                                                assert(string_of(u@) == *u && string_of(me@) == me);
-                                                if u@ != me@ {
-                                                    assert(!old_ord.contains(*u)) by {
-                                                        if old_ord.contains(*u) { let i = choose|i: int| 0 <= i < old_ord.len() && old_ord[i] == *u; assert(done_v.contains(old_ord[i])); }
-                                                    }
-                                                    assert(old_ord.push(*u).map_values(f) =~= old_ord.map_values(f).push(f(*u)));
-                                                    ord_v = old_ord.push(*u);
-                                                    assert(ord_v[old_ord.len() as int] == *u);
-                                                }
-                                                done_v = done_v.insert(*u);
-                                                assert forall|c: String| done_v.contains(c) && c != me implies #[trigger] ord_v.contains(c) by {
-                                                    if c == *u { assert(ord_v[old_ord.len() as int] == c); }
-                                                    else { assert(old_ord.contains(c)); let i = choose|i: int| 0 <= i < old_ord.len() && old_ord[i] == c; assert(ord_v[i] == c); }
-                                                }
-                                            }
-//@afterloop ~for u in voices\.iter\(\)
-                                        proof {
-                                            assert forall|n: String| ord_v.contains(n) <==> (set_v.contains(n) && n != me) by {
-                                                if ord_v.contains(n) { let i = choose|i: int| 0 <= i < ord_v.len() && ord_v[i] == n; assert(done_v.contains(ord_v[i])); }
-                                                if set_v.contains(n) && n != me { assert(done_v.contains(n)); }
-                                            }
-                                            assert(fan_out(log_v, outbox.log, *state, set_v, me, line));
-                                        }
+                                    }
 //@before ~for u in chanobj\.users\.keys\(\)
                                         let ghost log_a = outbox.log;
                                         let ghost mut ord_a: Seq<String> = Seq::empty();
